@@ -92,6 +92,7 @@ def gen(seed: int, tier: str) -> dict[str, Any]:
     cfg["stop_via"] = "queue" if stop_mode in ("early", "immediately") and rng.random() < 0.4 else "xknx"
     # two stop() calls overlap (e.g. a context-manager exit racing a signal handler)
     cfg["overlap_stop"] = rng.random() < 0.15
+    cfg["shadow"] = rate > 0 and rng.random() < 0.3
     if cfg["stop_via"] == "xknx" and rng.random() < 0.25:
         # the same XKNX object is started again after stop() returned and sends a few more telegrams
         cfg["restart"] = {"n": rng.choice([1, 2, 4]), "gap": rng.choice([0.0, 0.001, 0.3]),
@@ -160,6 +161,9 @@ def run(plan: dict[str, Any]) -> dict[str, Any]:
             if cfg["raising_device"] and self.name == "sw0":
                 raise RuntimeError("scripted device failure")
 
+    rng_sh = random.Random(plan["seed"] ^ 0x5AD0)
+    shadow_task: list[Any] = [None]
+
     async def main():
         xknx.telegram_queue.register_telegram_received_cb(all_cb, match_for_outgoing=True)
         xknx.telegram_queue.register_telegram_received_cb(second_cb, match_for_outgoing=True)
@@ -168,6 +172,20 @@ def run(plan: dict[str, Any]) -> dict[str, Any]:
         xknx.devices.async_add(RaisingSwitch(xknx, "swi", group_address="i-internal"))
         await xknx.start()
         t0 = loop.time()
+        if cfg.get("shadow"):
+            # a second XKNX object of the same process: rate limited, busy sending, and stopped in the middle of the run
+            from xknx.dpt import DPTBinary
+            xknx2, stub2, q2 = make_xknx(R, rate_limit=rng_sh.choice([5, 20, 50]))
+            await xknx2.start()
+            for j in range(rng_sh.choice([3, 6, 12])):
+                xknx2.telegrams.put_nowait(Telegram(destination_address=GroupAddress(GA_BASE + 64 + (j & 3)),
+                                                   payload=GroupValueWrite(DPTBinary(j & 1))))
+            R.extra_faults["second_xknx_object_stopped_meanwhile"] += 1
+
+            async def stop2():
+                await asyncio.sleep(rng_sh.choice([0.0, 0.03, 0.11, 0.26, 0.6]))
+                await xknx2.stop()
+            shadow_task[0] = loop.create_task(stop2())
 
         def do(op):
             if info["stop_call"] is not None:
@@ -249,6 +267,12 @@ def run(plan: dict[str, Any]) -> dict[str, Any]:
                 task2.cancel()
                 await asyncio.gather(task2, return_exceptions=True)
         await asyncio.sleep(0.01)
+        if shadow_task[0] is not None:
+            if not shadow_task[0].done():
+                await asyncio.wait([shadow_task[0]], timeout=30.0)
+            if not shadow_task[0].done():
+                shadow_task[0].cancel()
+            await asyncio.gather(shadow_task[0], return_exceptions=True)
 
     R.execute(main())
     abstract = oracle(R, plan, stub, info, seen_cb, seen_dev, pid_of)
